@@ -564,6 +564,24 @@ Proof.
   cbn [fst snd] in Hm. rewrite (Hn w b Hin) in Hm. discriminate.
 Qed.
 
+(** WATCH of a key the connection already watches (in the selected database) changes nothing:
+    the first baseline stays, no second registration (3f1b680) *)
+Lemma rewatch_keeps_baseline now dbi d t k w b :
+  alookup (wkey dbi k) w = Some b ->
+  watch_loop_partial now dbi d t [FBulk k] w = (d, t, w, true).
+Proof. intros H. cbn [watch_loop_partial]. rewrite H. reflexivity. Qed.
+(** WATCH of a key that is past its deadline removes it first (d9330f8): the key is absent when
+    the watch begins, and the baseline is read after that removal was recorded *)
+Lemma watch_expires_lazily now dbi d t k e :
+  get_entry d k = Some e -> expired now e = true ->
+  watch_loop_partial now dbi d t [FBulk k] [] =
+    (index_del (del_entry d k) k, snd (register_watch (mark t k) k),
+     [(wkey dbi k, fst (register_watch (mark t k) k))], true).
+Proof.
+  intros G E. cbn [watch_loop_partial alookup]. unfold purge_key. cbn [fst snd]. rewrite G, E.
+  cbn [mark_all fold_left]. destruct (register_watch (mark t k) k) as [b t']. reflexivity.
+Qed.
+
 (** ---- table-driven obligations over the generated census of engine.rs ---- *)
 Definition census_marks (f : bytes) : Z :=
   match find (fun r => match r with (n, _, _, _, _) => beq n f end) engine_census with
